@@ -32,9 +32,18 @@ class Harness:
                         w.event(op="call_begin", c=c, n=call["n"], chunk=call["chunk"], ord=1)
                         data = [value(c, i) for i in range(call["n"])]
                         it = iter(data) if call.get("lazy") else data
-                        for y in fm(it, call["chunk"]):
-                            cc, ii = decode(y)
-                            w.event(op="yield", c=cc, i=ii)
+                        gen_obj = fm(it, call["chunk"])
+                        if call.get("zipped"):
+                            # the consumer takes exactly as many results as there are elements and never asks for more
+                            # (zip(data, fm(data)), islice): every result was consumed, the generator is dropped suspended
+                            for _, y in zip(range(call["n"]), gen_obj):
+                                cc, ii = decode(y)
+                                w.event(op="yield", c=cc, i=ii)
+                            gen_obj.close()
+                        else:
+                            for y in gen_obj:
+                                cc, ii = decode(y)
+                                w.event(op="yield", c=cc, i=ii)
                         w.event(op="call_end")
             else:
                 wmod = S.load(WORKERS, "workers_sim")
@@ -71,6 +80,8 @@ def scenarios(rnd, quick):
         dict(pool="functormap", nw=2, calls=[dict(n=0, chunk=1), dict(n=3, chunk=2)]),   # empty input, then chunked
         dict(pool="functormap", nw=2, calls=[dict(n=5, chunk=7)]),                       # chunk larger than the input
         dict(pool="functormap", nw=2, calls=[dict(n=3, chunk=1), dict(n=2, chunk=1)]),   # repeated calls are independent
+        dict(pool="functormap", nw=2, calls=[dict(n=2, chunk=1, zipped=True), dict(n=2, chunk=1)]),   # all results taken, no StopIteration
+        dict(pool="functormap", nw=1, calls=[dict(n=3, chunk=2, zipped=True), dict(n=1, chunk=1, zipped=True), dict(n=2, chunk=1)]),
         dict(pool="mulpmap", nw=1, cpu=1, calls=[dict(n=2)]),
         dict(pool="mulpmap", nw=2, cpu=2, calls=[dict(n=3)]),
         dict(pool="mulpmap", nw=3, cpu=1, calls=[dict(n=2)]),                            # work queue smaller than the workers
@@ -86,7 +97,7 @@ def scenarios(rnd, quick):
     ]
     for _ in range(3 if quick else 20):
         kind = rnd.choice(["functormap", "mulpmap"])
-        calls = [dict(n=rnd.randint(0, 6), chunk=rnd.randint(1, 3), lazy=rnd.random() < 0.4) for _ in range(rnd.randint(1, 3))]
+        calls = [dict(n=rnd.randint(0, 6), chunk=rnd.randint(1, 3), lazy=rnd.random() < 0.4, zipped=rnd.random() < 0.25) for _ in range(rnd.randint(1, 3))]
         out.append(dict(pool=kind, nw=rnd.randint(1, 3), cpu=rnd.randint(1, 3), pipe=rnd.choice([0, 0, 1, 2]), calls=calls))
     for i, s in enumerate(out):
         s["judge"] = JUDGE
@@ -119,25 +130,40 @@ def real_leg(ctx, quick, rnd):
             n[0] += 1
             os.write(wfd, (json.dumps([n[0], kw]) + "\n").encode())
         ev(op="cfg", **JUDGE)
-        if scen["pool"] == "functormap":
-            with pools.FunctorMap(f, scen["nw"]) as fm:
+        try:
+            if scen["pool"] == "functormap":
+                with pools.FunctorMap(f, scen["nw"]) as fm:
+                    for ci, call in enumerate(scen["calls"]):
+                        c = ci + 1
+                        ev(op="call_begin", c=c, n=call["n"], chunk=call["chunk"], ord=1)
+                        try:
+                            gen_obj = fm(iter([value(c, i) for i in range(call["n"])]), call["chunk"])
+                            for _, y in (zip(range(call["n"]), gen_obj) if call.get("zipped") else enumerate(gen_obj)):
+                                cc, ii = decode(y)
+                                ev(op="yield", c=cc, i=ii)
+                            gen_obj.close()
+                        except Exception as e:
+                            ev(op="consumer_exc", what=repr(e)[:200])
+                            raise realrun.ConsumerExc()
+                        ev(op="call_end")
+            else:
                 for ci, call in enumerate(scen["calls"]):
                     c = ci + 1
-                    ev(op="call_begin", c=c, n=call["n"], chunk=call["chunk"], ord=1)
-                    for y in fm(iter([value(c, i) for i in range(call["n"])]), call["chunk"]):
+                    ev(op="call_begin", c=c, n=call["n"], chunk=1, ord=1)
+                    try:
+                        res = maps.mul_p_map(f, [value(c, i) for i in range(call["n"])], scen["nw"])
+                    except Exception as e:
+                        ev(op="consumer_exc", what=repr(e)[:200])
+                        raise realrun.ConsumerExc()
+                    for y in res:
                         cc, ii = decode(y)
                         ev(op="yield", c=cc, i=ii)
                     ev(op="call_end")
-        else:
-            for ci, call in enumerate(scen["calls"]):
-                c = ci + 1
-                ev(op="call_begin", c=c, n=call["n"], chunk=1, ord=1)
-                for y in maps.mul_p_map(f, [value(c, i) for i in range(call["n"])], scen["nw"]):
-                    cc, ii = decode(y)
-                    ev(op="yield", c=cc, i=ii)
-                ev(op="call_end")
+        except realrun.ConsumerExc:
+            pass
         ev(op="exit", alive=len(multiprocessing.active_children()))
     scens = [dict(pool="functormap", nw=2, calls=[dict(n=7, chunk=2), dict(n=0, chunk=1), dict(n=3, chunk=1)]),
+             dict(pool="functormap", nw=2, calls=[dict(n=4, chunk=1, zipped=True), dict(n=3, chunk=2, zipped=True), dict(n=3, chunk=1)]),
              dict(pool="functormap", nw=3, calls=[dict(n=2, chunk=5)]),
              dict(pool="mulpmap", nw=2, calls=[dict(n=5), dict(n=0), dict(n=3)]),
              dict(pool="mulpmap", nw=3, calls=[dict(n=1)])]
